@@ -213,15 +213,19 @@ class Operation(ABC):
             backed_grad = self.grad_post_process_fn(backed_grad, var.shape)
             assert backed_grad.shape == var.shape, (backed_grad.shape, var.shape)
             if var._grad is None:
-                backed_grad = (
-                    np.copy(backed_grad)
+                if (
                     # `backed_grad` is view of grad; we want to be able to
                     # augment tmp-grad inplace later
-                    if backed_grad.base is not None or (backed_grad is grad)
-                    else backed_grad
-                )
-                if backed_grad.dtype != var.dtype:
-                    backed_grad = backed_grad.astype(var.dtype, copy=False)
+                    backed_grad.base is not None
+                    or (backed_grad is grad)
+                    or backed_grad.dtype != var.dtype
+                    # the gradient must have the same memory layout as the tensor's
+                    # data so that views of the tensor produce views of its gradient
+                    or backed_grad.strides != var.data.strides
+                ):
+                    tmp_grad = np.empty_like(var.data)
+                    tmp_grad[...] = backed_grad
+                    backed_grad = tmp_grad
 
                 var._grad = backed_grad
             else:
